@@ -241,6 +241,8 @@ func (a address) assign(k bool, value int8, valueType reflect.Type) {
 		a.em.fb.emitNew(a.addressedType, -a.op1)
 		a.em.changeRegister(k, value, a.op1, a.targetType(), a.addressedType)
 	case assignPtrIndirection:
+		// The instruction panics if the pointer is nil.
+		a.em.fb.addPosAndPath(a.pos)
 		a.em.changeRegister(k, value, -a.op1, a.targetType(), a.addressedType)
 	case assignLocalSliceIndex:
 		a.em.fb.emitSetSlice(k, a.op1, value, a.op2, a.pos, valueType.Kind())
